@@ -309,6 +309,16 @@ func genJournal(r *rng, o genOpts) Journal {
 				}
 				p := base * (1 + float64(r.rangeInt(-20, 20))/100)
 				ps := fmt.Sprintf("%.4f", p)
+				if k > 0 && len(coms) > 2 && r.chance(25) {
+					// the price graph changes over time: a later quote of c against ANOTHER commodity
+					// (an alternative, often shorter, path between commodities that are already
+					// connected; seeded change C03-cached-price-traversal was missed without this)
+					alt := pick(r, coms)
+					if alt != c && alt != target {
+						j = append(j, Dir{Kind: 'P', Date: dateStr(dt), Com: c, Price: fmt.Sprintf("%.4f", float64(r.rangeInt(50, 30000))/100), Target: alt})
+						continue
+					}
+				}
 				if r.chance(20) && k > 0 {
 					// inverse declaration
 					j = append(j, Dir{Kind: 'P', Date: dateStr(dt), Com: target, Price: fmt.Sprintf("%.6f", 1/p), Target: c})
